@@ -294,6 +294,8 @@ def frame_obligations(c, ctx, I, bound, old):
         for m in mods:
             if m == path or (m.endswith(".*") and path.startswith(m[:-1])) or path.startswith(m + "."):
                 return True
+            if m.endswith("[*]") and path.startswith(m[:-3] + "["):      # every item of a dict/list parameter
+                return True
         return False
 
     seen = set()
@@ -354,6 +356,8 @@ def frame_obligations(c, ctx, I, bound, old):
                 leaf(path + "[%d]" % i, a, b)
 
     def leaf(p, cv, ov):
+        if allowed(p):
+            return
         if hasattr(cv, "dom") and hasattr(ov, "dom") and hasattr(cv, "val"):
             ctx.oblige("frame:%s" % p, z3.And(cv.dom == ov.dom, cv.val == ov.val))
             return
